@@ -900,6 +900,21 @@ func (g *gen) piece(depth int) {
 			}
 		}
 	}
+	if g.o.toleratedOnly && g.o.probes && g.pct("assignundeclared", 3) {
+		// an assignment to a name nobody declared is an unknown identifier, tolerated by `==`; its right-hand side
+		// is evaluated first, and a failure there is not an unknown identifier
+		g.feat("assignment_to_undeclared_name_in_tolerant_frame")
+		g.frames = 0
+		g.tag("<%=", "("+g.fresh("und")+" = "+g.maybeProbe("n1", kInt, "assign-value", true)+") == nil", "%>")
+		return
+	}
+	if g.o.probes && g.nest == 0 && g.cur.name == "" && g.inFn == 0 && g.pct("toplevelreturn", 3) {
+		// an explicit return at top level: its value is written and the template goes on
+		g.feat("top_level_return")
+		g.frames = 0
+		g.tag("<%", "return "+g.maybeProbe(g.rawExpr(kInt, 1, "return-value"), kInt, "return-value", true), "%>")
+		return
+	}
 	if g.o.toleratedOnly && g.o.probes && g.nest > 0 && g.cur.name == "" && g.pct("toleratednested", 8) {
 		g.tolerantPiece(depth) // tolerated unknown identifiers inside bodies, with probes after them in the same statement
 		return
@@ -1362,6 +1377,9 @@ func (g *gen) multiStmtTagPiece(depth int) {
 		if g.pct("stmtcomment", 50) {
 			g.cur.write([]string{"  # a comment\n", "# another one, with a \"quote\" and a %\n", "  #\n"}[g.intn("stmtcommentkind", 0, 2)])
 		}
+		if g.pct("stmtblank", 35) {
+			g.cur.write([]string{"\n", "   \n", "\t\n\n", " \r\n"}[g.intn("stmtblankkind", 0, 3)])
+		}
 		g.frames = 0
 		g.pending = g.pending[:0]
 		var stmt string
@@ -1549,8 +1567,38 @@ func (g *gen) blockHelperPiece(depth int) {
 }
 
 func (g *gen) builtinBlockPiece(depth int) {
+	if g.o.probes && !g.o.noPartials && g.pdepth < 3 && g.pct("partialblock", 15) {
+		// DORMANT: a block handed to partial(). plush ignores it today (the block is never evaluated, so probes
+		// in it are never invoked); a change that starts rendering such blocks turns them into fault points
+		g.feat("dormant_probe_block_of_partial")
+		name := g.fresh("pb") + ".html"
+		g.p.Partials[name] = "plain partial text"
+		fs := &Site{Kind: pkFeeder, Tmpl: g.cur.name, Class: "partial", Name: name, Late: g.late, Ctx: g.curCtx()}
+		g.p.FeederSites[name] = fs
+		g.pending = append(g.pending, fs)
+		g.siteLog = append(g.siteLog, fs)
+		g.frames = 0
+		g.tag("<%=", `partial("`+name+`") {`, "%>")
+		g.nl()
+		sc := g.pushScope()
+		g.body("block-helper-block", depth-1, 2)
+		g.popScope(sc)
+		g.tag("<%", "}", "%>")
+		return
+	}
 	g.feat("html_escape_block")
 	g.frames = 0
+	if g.pct("escapeboth", 40) {
+		// a non-empty string AND a block
+		g.feat("html_escape_string_and_block")
+		g.tag("<%=", `htmlEscape("lit<") {`, "%>")
+		g.nl()
+		sc := g.pushScope()
+		g.body("htmlEscape-block", depth-1, 2)
+		g.popScope(sc)
+		g.tag("<%", "}", "%>")
+		return
+	}
 	g.tag("<%=", `htmlEscape("") {`, "%>")
 	g.nl()
 	sc := g.pushScope()
@@ -2125,6 +2173,11 @@ var brokenTags = []string{
 	"<%= foo( %>",
 	"<% let q = [1, 2, %>",
 	"<%= {\"a\": 1, %>",
+	// "@+1:" — the broken clause is on the SECOND line of this text: a tag whose closing delimiter sits at the start of
+	// the next line, directly followed by the broken tag
+	"@+1:<%= if (b1) { %>x<% let q9 = 1\n%><% } else if ( { %>y<% } %>",
+	"@+1:<%= for (x) in xs { %><%= x\n%><% } else { %>",
+	"@+2:<% let q8 = [1,\n2]\n%><%= foo(n1, %>",
 	// one broken tag that sets off more than ten messages
 	"<%= 1 ))))))))))))) %>",
 	"<%= pb(0, {\"a\": 1 \"b\": 2, \"c\": 3, \"d\": 4, \"e\": 5, \"f\": 6, \"g\": 7}) { %>\nx\n<% } %>",
@@ -2193,8 +2246,14 @@ func genProgram(t *rapid.T, o genOpts) *Program {
 			}
 			p.Broken = brokenTags[k]
 			p.BrokenLine = g.cur.line
+			if strings.HasPrefix(p.Broken, "@+") {
+				// the broken clause sits that many lines below the start of the text
+				off := int(p.Broken[2] - '0')
+				p.Broken = p.Broken[4:]
+				p.BrokenLine += off
+			}
 			g.feat("broken_tag")
-			g.cur.write(brokenTags[k])
+			g.cur.write(p.Broken)
 			g.nl()
 			continue
 		}
